@@ -17,9 +17,9 @@ META = dict(
     technique="differential execution of two readers of the same on-disk format: archives written by the Python store / a real solve are read back by eko.io (Python) and by crates/dekoder (Rust, built offline from the current tree against unit-checked shim crates); evolution points, shapes and tensor bytes are compared",
     level_text="For every generated archive the Rust reader must list exactly the evolution points the Python reader lists and return, for each, operator and error tensors with the same shape and bitwise identical entries. Every shim standing in for an unavailable Rust dependency (LZ4 frame, zip/npy, YAML, tar) is checked in the same run against the Python reference implementation on the very files of the case; a shim that disagrees makes the case inconclusive, never a verdict.",
     level_note="Trusted base: rustc, the real thiserror crate (vendored from the local registry), the shim crates in /verif/rust (validated per file against lz4.frame, numpy.load, yaml, tarfile), the Python reader as reference.",
-    rule="case = one evolution point of one archive (random archives: 1-4 points, float / integer-valued / int scales more than the Rust tolerance apart, random nf, random (a,b,a,b) tensors with errors; plus the points of one real tiny solve); distinct by (archive, scale, nf); non-trivial = tensors non-constant and at least 16 entries",
+    rule="case = one evolution point of one archive (random archives: 1-4 points, float / integer-valued / int scales more than the Rust tolerance apart, random nf, random (a,b,a,b) tensors with errors; 40 % of the archives are the final state of a multi-step write history: create, close, EKO.edit sessions, points first stored without and later with error, re-assignment under keys from EKO.approx and NumPy-typed keys, points added late; plus the points of one real tiny solve); distinct by (archive, scale, nf); non-trivial = tensors non-constant and at least 16 entries",
     min_nontrivial=25,
-    required_hits=["rust_points_compared", "tensor_bytes_compared", "shim_lz4_checked", "shim_npz_checked", "shim_yaml_checked", "shim_tar_checked"],
+    required_hits=["rust_points_compared", "tensor_bytes_compared", "history_archives", "shim_lz4_checked", "shim_npz_checked", "shim_yaml_checked", "shim_tar_checked"],
     max_inconclusive_frac=0.05,
 )
 
@@ -97,6 +97,85 @@ def make_random_archive(rng, path):
                 o = np.asfortranarray(o)  # a writer may hand over any memory layout
             eko[(s, nf)] = Operator(operator=o, error=e)
     return eps
+
+
+def _tensors(rng, a, n, i):
+    shape = (a, n, a, n)
+    o = rng.normal(size=shape) * 10 ** rng.uniform(-3, 3)
+    e = np.abs(rng.normal(size=shape)) * 1e-6
+    if i % 4 == 2:
+        o = np.asfortranarray(o)
+    return o, e
+
+
+def _key(rng, eko, s, nf, how):
+    """The key under which a point is (re)addressed: plain tuple, NumPy-typed tuple, or what EKO.approx hands back."""
+    if how == "numpy":
+        return (np.float64(s), np.int64(nf))
+    if how == "approx":
+        k = eko.approx((float(s) * (1.0 + float(rng.uniform(-3e-7, 3e-7))), nf))
+        if k is None:  # not stored yet
+            return (s, nf)
+        return k
+    return (s, nf)
+
+
+def make_history_archive(rng, path):
+    """Archive produced by a multi-step write history whose FINAL state satisfies the precondition
+    (every operator carries an error, points distinguishable): create -> close -> EKO.edit -> overwrite
+    with/without error, keys from eko.approx, NumPy-typed keys, re-assignment, new points -> close.
+    Returns (final points, history log)."""
+    from eko.io.items import Operator
+    from eko.io.struct import EKO
+
+    n = int(rng.integers(2, 9))
+    xg = np.geomspace(10 ** rng.uniform(-5, -1), 1.0, n)
+    tc, oc = workload.cards(workload.raw_theory(order=(1, 0)), workload.raw_operator(xgrid=xg, mugrid=((10.0, 5),)))
+    eps = random_scales(rng, int(rng.integers(2, 5)))
+    a = int(rng.choice([1, 2, 14]))
+    modes = ["two-pass", "approx-reassign", "numpy-key", "flip", "plain", "late"]
+    plan = [(s, nf, modes[(j + int(rng.integers(0, 2))) % len(modes)] if j else modes[int(rng.integers(0, 2))]) for j, (s, nf) in enumerate(eps)]
+    log = []
+    # session 1: creation
+    with EKO.create(pathlib.Path(path)).load_cards(tc, oc).build() as eko:
+        for j, (s, nf, mode) in enumerate(plan):
+            o, e = _tensors(rng, a, n, j)
+            if mode == "late":
+                continue
+            if mode == "two-pass":
+                eko[(s, nf)] = Operator(operator=o)  # central values first
+                log.append(["create", repr(s), nf, "no-error"])
+                if rng.integers(0, 2):  # error attached in the same session
+                    how = ["plain", "numpy", "approx"][int(rng.integers(0, 3))]
+                    eko[_key(rng, eko, s, nf, how)] = Operator(operator=o, error=e)
+                    log.append(["create", repr(s), nf, "with-error", how])
+            elif mode == "numpy-key":
+                eko[_key(rng, eko, s, nf, "numpy")] = Operator(operator=o, error=e)
+                log.append(["create", repr(s), nf, "with-error", "numpy"])
+            else:
+                eko[(s, nf)] = Operator(operator=o, error=e)
+                log.append(["create", repr(s), nf, "with-error", "plain"])
+    # session 2 (and sometimes 3): edit
+    for session in range(int(rng.integers(1, 3))):
+        with EKO.edit(pathlib.Path(path)) as eko:
+            for j, (s, nf, mode) in enumerate(plan):
+                o, e = _tensors(rng, a, n, j + 1)
+                how = ["plain", "numpy", "approx"][int(rng.integers(0, 3))]
+                if mode == "two-pass" or (mode == "late" and session == 0):
+                    # attach the error now (or add the point): afterwards the point satisfies the precondition
+                    eko[_key(rng, eko, s, nf, how)] = Operator(operator=o, error=e)
+                    log.append([f"edit{session}", repr(s), nf, "with-error", how])
+                elif mode == "approx-reassign":
+                    eko[_key(rng, eko, s, nf, "approx")] = Operator(operator=o, error=e)
+                    log.append([f"edit{session}", repr(s), nf, "with-error", "approx"])
+                elif mode == "flip":
+                    eko[_key(rng, eko, s, nf, how)] = Operator(operator=o)
+                    eko[_key(rng, eko, s, nf, "plain" if how == "approx" else "approx")] = Operator(operator=o, error=e)
+                    log.append([f"edit{session}", repr(s), nf, "no-error then with-error", how])
+                elif mode == "numpy-key" and rng.integers(0, 2):
+                    eko[_key(rng, eko, s, nf, "numpy")] = Operator(operator=o, error=e)
+                    log.append([f"edit{session}", repr(s), nf, "with-error", "numpy"])
+    return [(s, nf) for s, nf, _ in plan], log
 
 
 def make_solved_archive(rng, path):
@@ -203,7 +282,7 @@ def check_shims(ck, binary, tar_path, tmp, tag):
 
 
 # -------------------------------------------------------------------- compare
-def compare_archive(ck, binary, tar_path, tmp, tag, kind, given=None):
+def compare_archive(ck, binary, tar_path, tmp, tag, kind, given=None, hlog=None):
     from eko.io.struct import EKO
 
     # python reference reader
@@ -219,7 +298,7 @@ def compare_archive(ck, binary, tar_path, tmp, tag, kind, given=None):
     out = pathlib.Path(tmp) / f"{tag}-out"
     out.mkdir()
     rc, sout, serr = run_h(binary, "read", tar_path, work, out)
-    wit0 = dict(archive=tag, kind=kind, given=[[repr(s), nf] for s, nf in (given or [])], seed=ck.seed, tier=ck.tier)
+    wit0 = dict(archive=tag, kind=kind, given=[[repr(s), nf] for s, nf in (given or [])], history=hlog, seed=ck.seed, tier=ck.tier)
     if py_error is not None:
         # no reference to compare with: outside this property (C36/C37 own the python round trip)
         ck.case((tag, "python-reader"), nontrivial=False)
@@ -315,21 +394,26 @@ def _run(ck, tmp, n_arch):
         sp = os.path.join(tmp, "solved.tar")
         try:
             make_solved_archive(ck.rng, sp)
-            archives.append(("solved", "solve", sp, None))
+            archives.append(("solved", "solve", sp, None, None))
         except Exception as ex:
             ck.case(("solved",), nontrivial=False)
             ck.inconclusive(f"tiny solve failed: {type(ex).__name__}: {str(ex)[:150]}")
         for i in range(n_arch):
             p = os.path.join(tmp, f"rnd{i}.tar")
+            history = i % 5 in (1, 3)  # 40 % of the archives come out of multi-step write histories
             try:
-                given = make_random_archive(ck.rng, p)
+                if history:
+                    given, hlog = make_history_archive(ck.rng, p)
+                    ck.hit("history_archives")
+                else:
+                    given, hlog = make_random_archive(ck.rng, p), None
             except Exception as ex:
                 ck.case((f"rnd{i}",), nontrivial=False)
                 ck.inconclusive(f"python store could not write archive {i}: {type(ex).__name__}: {str(ex)[:150]}")
                 continue
-            archives.append((f"rnd{i}", "store", p, given))
+            archives.append((f"hist{i}" if history else f"rnd{i}", "history" if history else "store", p, given, hlog))
         n_prog = 0
-        for tag, kind, p, given in archives:
+        for tag, kind, p, given, hlog in archives:
             wd = os.path.join(tmp, f"w-{tag}")
             os.makedirs(wd)
             problems = check_shims(ck, binary, p, wd, tag)
@@ -338,7 +422,7 @@ def _run(ck, tmp, n_arch):
                 ck.inconclusive(f"shim check failed on {tag}: {problems[0][:250]}")
                 continue
             n_prog += 1
-            compare_archive(ck, binary, p, wd, tag, kind, given)
+            compare_archive(ck, binary, p, wd, tag, kind, given, hlog)
             import shutil
 
             shutil.rmtree(wd, ignore_errors=True)
